@@ -712,17 +712,6 @@ def reopen_specs():
     return [{"role": "s", "count": c, "stop": st, "count_hint": c} for c, st in ((300, 254), (258, 250), (600, 511))]
 
 
-def reopen_listed():
-    """the `reopen` stream demonstrates a KNOWN finding (inherent to modulo-256 sequence numbers, no repair
-    inside the protocol); it runs only once known_findings.json lists it, so that the check reports it as
-    KNOWN-FINDING and not as a new violation"""
-    try:
-        k = json.load(open(os.path.join(core.VERIF, "known_findings.json")))
-        return any(f.get("id") == "C05-reopen-at-256" for f in k.get("findings", []))
-    except Exception:
-        return False
-
-
 def run_one(ctx, kind, params, ch):
     cls = {"send": SendRun, "stalec": StaleClient, "reopen": Reopen}.get(kind, RecvRun)
     sc = cls(ctx, kind if kind != "stale" else "stale", params, ch)
@@ -814,8 +803,6 @@ def run_case(ctx, case, label):
 
 def run(ctx):
     for name, c in corpus_cases():
-        if c.get("kind") == "reopen" and not reopen_listed():
-            continue
         run_case(ctx, c, "corpus/" + name)
     rng = ctx.sub_rng("c05/grid")
     ss = send_specs(ctx, rng)
@@ -836,8 +823,7 @@ def run(ctx):
     specs.append(("stale", [("c%d" % i, "stalec", p) for i, p in enumerate(stale_client_specs(ctx))]))
     for i, (k2, p) in enumerate(long_specs(ctx, rng)):
         specs.append(("long", [("%d" % i, k2, p)]))
-    if reopen_listed():
-        specs.append(("reopen", [("%d" % i, "reopen", p) for i, p in enumerate(reopen_specs())]))
+    specs.append(("reopen", [("%d" % i, "reopen", p) for i, p in enumerate(reopen_specs())]))
     core.run_shards(ctx, "harness.c05", "shard", specs)
     cases = stale_e2e_cases(ctx, ctx.sub_rng("c05/e2e-stale"))
     core.run_shards(ctx, "harness.c05", "stale_e2e_shard", [c for c in (cases[i::16] for i in range(16)) if c])
